@@ -230,6 +230,7 @@ type Conn struct {
 	RemoteAddrDelay time.Duration // real sleep inside the first RemoteAddr()
 	WriteDelay      time.Duration // real sleep inside Write
 	WriteErr        error         // Write fails with this error
+	writeErrQueue   []error       // errors for the next Write calls (nil entry = succeed)
 	OnWrite         func(c *Conn, p []byte)
 }
 
@@ -320,6 +321,14 @@ func (c *Conn) Write(p []byte) (int, error) {
 	if c.closed {
 		c.net.Log(c.ID, KUseAfterStop, len(p), "Write after Close")
 		return 0, net.ErrClosed
+	}
+	if len(c.writeErrQueue) > 0 {
+		e := c.writeErrQueue[0]
+		c.writeErrQueue = c.writeErrQueue[1:]
+		if e != nil {
+			c.net.Log(c.ID, KWrite, 0, "injected write error (queued)")
+			return 0, e
+		}
 	}
 	if c.WriteErr != nil {
 		c.net.Log(c.ID, KWrite, 0, "injected write error")
@@ -413,6 +422,17 @@ func (c *Conn) FeedAfter(d time.Duration, data []byte) {
 	c.cond.Broadcast()
 	c.mu.Unlock()
 }
+
+// FailNextWrites queues errors for the server's next Write calls on this
+// connection (nothing is delivered for a failed write; a nil entry lets one pass).
+func (c *Conn) FailNextWrites(errs ...error) {
+	c.mu.Lock()
+	c.writeErrQueue = append(c.writeErrQueue, errs...)
+	c.mu.Unlock()
+}
+
+// TimeoutError is an error that looks like an expired write deadline.
+func TimeoutError() error { return timeoutErr{} }
 
 // EOF: after the queue drains the peer closes its sending side.
 func (c *Conn) EOF() {
